@@ -275,6 +275,47 @@ def check_doc(ctx, rng, doc, sname):
 
 def shard(ctx):
     rng = ctx.rng("c10")
+    # ---- queries spelled in another case convention than the document (the evaluator's documented-by-example fallback): an unresolved
+    #      report must still stop at the deepest point the query reached THROUGH that fallback
+    if ctx.mine(1):
+        cdoc = {"Resources": {"logs": {"Properties": {"BucketName": "x", "Tags": [{"Key": "k"}], "retention_days": 7}}}}
+        probes = [("resources.logs.properties.bucketEncryption exists", "/Resources/logs/Properties"),
+                  ("resources.logs.properties.bucket_name.zz == 1", "/Resources/logs/Properties/BucketName"),
+                  ("Resources.logs.properties.tags[0].nokey exists", "/Resources/logs/Properties/Tags/0"),
+                  ("resources.nosuch.properties exists", "/Resources"),
+                  # (one convention per query: keys of a second convention inside the same query are not followed, so none is probed)
+                  ("resources.*.properties.nothing exists", "/Resources/logs/Properties")]
+        ctext = "".join("rule cc%d {\n    %s\n}\n" % (i, c) for i, (c, _e) in enumerate(probes))
+        r = ctx.w.run({"k": "cli", "argv": ["validate", "-r", "{S}/r.guard", "-d", "{S}/d.json", "--structured", "-S", "none", "-o", "json"],
+                       "files": {"r.guard": ctext, "d.json": json.dumps(cdoc)}})
+        ctx.res.cases += 1
+        if r.get("r") != "ok":
+            ctx.inconclusive("crash" if core.crash_signature(r) else "case-convention-gadget-error")
+        else:
+            rep = json.loads(r["out"])[0]
+            seen_ = {}
+
+            def walk_(e, rule=None):
+                (k_, v_), = e.items()
+                if k_ in ("Rule", "Disjunctions"):
+                    for c_ in v_.get("checks", []):
+                        walk_(c_, v_.get("name", rule) if k_ == "Rule" else rule)
+                elif k_ == "Clause":
+                    (_ck, cv_), = v_.items()
+                    ur = (cv_.get("check") or {}).get("UnResolved")
+                    if isinstance(ur, dict):
+                        seen_.setdefault(rule, []).append(((ur.get("value") or {}).get("traversed_to") or {}).get("path"))
+            for e_ in rep.get("not_compliant", []):
+                walk_(e_)
+            for i, (c, want_) in enumerate(probes):
+                got_ = seen_.get("cc%d" % i)
+                ctx.res.counts["case_convention_probes"] += 1
+                if got_ is None or any(g_ != want_ for g_ in got_):
+                    ctx.violation("unresolved:case-convention:traversed-to", "`%s`: the query reaches %s (through another spelling of the keys) but the report stops at %s" % (c, want_, got_),
+                                  {"kind": "caseconv", "rules": ctext, "doc": cdoc, "expected": {("cc%d" % j): w_ for j, (_c, w_) in enumerate(probes)}})
+                    break
+            else:
+                ctx.res.distinct.add(("case-convention", len(probes)))
     n = 30 if ctx.quick else 3000
     for t in range(n):
         doc = gen.gen_doc(rng, scalars=SCALARS, depth=5)
@@ -308,6 +349,14 @@ def shard(ctx):
 
 def replay(case, w):
     found = []
+    if case.get("kind") == "caseconv":
+        r = w.run({"k": "cli", "argv": ["validate", "-r", "{S}/r.guard", "-d", "{S}/d.json", "--structured", "-S", "none", "-o", "json"],
+                   "files": {"r.guard": case["rules"], "d.json": json.dumps(case["doc"])}})
+        if r.get("r") != "ok":
+            return False, "run failed"
+        text = r["out"]
+        bad = [k for k, v in case["expected"].items() if text.count('"path": "%s"' % v) == 0]
+        return not bad, "expected stopping points missing for %s" % bad
 
     class Ctx(core.Ctx):
         def violation(self, sig, what, rp):
